@@ -533,6 +533,9 @@ func (in *Interp) runSeeded(fd *ast.FuncDecl, symbolicParams bool) *Result {
 				switch x := n.(type) {
 				case *ast.ReturnStmt:
 					for _, o := range r.ret(s, x) {
+						for k := len(o.s.DeferCalls) - 1; k >= 0; k-- {
+							r.call(o.s, o.s.DeferCalls[k])
+						}
 						e := &Exit{State: o.s, Pos: x.Pos(), Vals: o.res, Index: retIndex[x.Pos()]}
 						for _, re := range x.Results {
 							e.Exprs = append(e.Exprs, in.exprText(re))
@@ -639,6 +642,11 @@ func (r *run) node(s *State, n ast.Node) []*State {
 		}
 		if _, ok := x.Call.Fun.(*ast.FuncLit); ok {
 			s.event("defer", x.Pos(), "funclit")
+			return []*State{s}
+		}
+		// a deferred pop of one of the paired stacks, without arguments: it runs at every return of the function
+		if role := r.roleOf(x.Call); (role == RolePopRecovery || role == RolePopV) && len(x.Call.Args) == 0 {
+			s.DeferCalls = append(s.DeferCalls, x.Call)
 			return []*State{s}
 		}
 		s.undecided("defer of %s", r.in.exprText(x.Call))
@@ -1369,7 +1377,7 @@ func (r *run) pWriteVal(s *State, path string, l, rhs ast.Expr, v Val, pos token
 		case strings.HasPrefix(rt, "append(p.rstack,"):
 			s.RS = saturate(s.RS + 1)
 			s.event("rstack.push", pos, strings.TrimSuffix(strings.TrimPrefix(rt, "append(p.rstack,"), ")"))
-		case rt == "p.rstack[:len(p.rstack)-1]":
+		case rt == "p.rstack[:len(p.rstack)-1]" || r.isTopIndexSlice(s, rhs):
 			s.RS = saturate(s.RS - 1)
 			s.event("rstack.pop", pos)
 		default:
@@ -1630,6 +1638,13 @@ func (r *run) eval(s *State, e ast.Expr) Val {
 				} else if i < len(names) {
 					f[names[i]] = r.eval(s, el)
 				}
+			}
+			// fields left out of a keyed literal have their zero values
+			if _, ok := f["v"]; !ok {
+				f["v"] = Val{K: "nil"}
+			}
+			if _, ok := f["b"]; !ok {
+				f["b"] = Bool(false)
 			}
 			f["$st"] = Val{K: "tok", A: s.St}
 			f["$er"] = Val{K: "errsnap", A: s.Er}
@@ -2109,4 +2124,54 @@ func (r *run) applySummary(s *State, c *ast.CallExpr, site string, sum *Result) 
 		out = append(out, outcome{t, res})
 	}
 	return out
+}
+
+// isTopIndexSlice: rhs is `p.rstack[:top]` with top a local whose only definition in the function is
+// `top := len(p.rstack) - 1`, made after the last push (the depth has not changed since: checked by position - the
+// definition lies after every append to p.rstack that precedes the slice).
+func (r *run) isTopIndexSlice(s *State, rhs ast.Expr) bool {
+	se, ok := rhs.(*ast.SliceExpr)
+	if !ok || se.Low != nil || se.High == nil || se.Max != nil || r.in.exprText(se.X) != "p.rstack" {
+		return false
+	}
+	id, ok := se.High.(*ast.Ident)
+	if !ok {
+		return false
+	}
+	obj := r.in.Info.ObjectOf(id)
+	if obj == nil {
+		return false
+	}
+	var def *ast.AssignStmt
+	nDefs := 0
+	var pushes []token.Pos
+	ast.Inspect(r.fd.Body, func(n ast.Node) bool {
+		as, ok := n.(*ast.AssignStmt)
+		if !ok {
+			return true
+		}
+		for i, l := range as.Lhs {
+			if lid, ok := l.(*ast.Ident); ok && r.in.Info.ObjectOf(lid) == obj {
+				nDefs++
+				if len(as.Lhs) == len(as.Rhs) && strings.ReplaceAll(r.in.exprText(as.Rhs[i]), " ", "") == "len(p.rstack)-1" {
+					def = as
+				}
+			}
+			if strings.ReplaceAll(r.in.exprText(l), " ", "") == "p.rstack" {
+				if as.End() <= rhs.Pos() {
+					pushes = append(pushes, as.Pos())
+				}
+			}
+		}
+		return true
+	})
+	if def == nil || nDefs != 1 || def.Pos() > rhs.Pos() {
+		return false
+	}
+	for _, p := range pushes {
+		if p > def.Pos() && p < rhs.Pos() {
+			return false // the stack was stored to between the definition of the index and its use
+		}
+	}
+	return true
 }
